@@ -153,6 +153,10 @@ def run_one(make, case, out, tag):
         bq = mm.block_quality()
         mq = mm.max_quality()
         sc = scores[p]
+        if bq is None or mq is None:
+            out.fail("c12.quality_is_none:%s" % where, {"tag": tag, "pos": p, "block_quality": bq, "max_quality": mq,
+                                                        "matcher": repr(mm)[:300]})
+            return False
         if not ge(bq, sc):
             out.fail("c12.block_quality_below_current_score:%s" % where,
                      {"tag": tag, "pos": p, "id": ids[p], "score": sc, "block_quality": bq, "matcher": repr(mm)[:300]})
@@ -246,7 +250,8 @@ def run_one(make, case, out, tag):
                     reported = c.score()
                 except Exception:
                     reported = None
-                if reported is not None and gt(reported, q) and not c11.close(reported, scores[newpos], 1e-9):
+                if (reported is not None and scores[newpos] is not None and gt(reported, q)
+                        and not c11.close(reported, scores[newpos], 1e-9)):
                     out.fail("c12.skip_to_quality_reports_another_entrys_score",
                              {"tag": tag, "q": q, "id": cid, "reported_score": reported, "score_of_that_id": scores[newpos],
                               "matcher": repr(m)[:300]})
@@ -328,7 +333,7 @@ def has_big_boost(case):
 def run(case, out, _attributing=False):
     _run(case, out)
     if out.violations and not _attributing and has_big_boost(case) and \
-            all(v["sig"].startswith("c12.replace_dropped") for v in out.violations):
+            all(v["sig"].startswith(("c12.replace_dropped", "c12.replace_changed_score")) for v in out.violations):
         from wv.runner import Outcome
         scratch = Outcome()
         _run(strip_boosts(case), scratch)
